@@ -1,6 +1,6 @@
 (* C11 -- abort and disconnect are signalled to the other side, never swallowed (sequential part;
    the interleavings with a concurrently polling consumer are C10's transition system). *)
-From HS Require Import Lib.Base Model.Chunker Proofs.ChunkerP.
+From HS Require Import Lib.Base Model.Chunker Proofs.ChunkerP Proofs.ChunkerHist.
 
 (* abort: the queue is replaced by the error, the registered consumer is woken, the body does
    not claim to be at end-of-stream, the writer is dead *)
@@ -39,6 +39,35 @@ Theorem c11_write_after_disconnect : forall s d, CInv s -> c_st s = SFused -> c_
   (lenN (c_buf s) + lenN d < c_cap s -> r = RWrite (Some (lenN d)) /\ lenN (c_buf s') < c_cap s).
 Proof. exact write_after_disconnect. Qed.
 
+(* ---- whole histories (and, by c10_schedules_are_histories, all interleavings) ---- *)
+(* An abort at any point of any fault-free history, followed by ANY operations in any order: every
+   later write and flush fails (write_all of a non-empty buffer too), nothing is ever delivered or
+   woken again, and the first poll of the body reports the error -- never an end before it. *)
+Theorem c11_abort_history : forall s ops, Good s -> Live s ->
+  let '(s1, _, _) := cstep s OAbort in
+  let '(sf, rs) := crun s1 ops in
+  Forall2 (fun o p => refused o (fst p) /\ delivered_of (fst p) = [] /\ snd p = []) ops rs /\
+  match first_poll ops rs with Some r => r = RPoll (Some (Some None)) | None => True end.
+Proof. exact abort_history. Qed.
+
+(* A body drop at any point of any history, followed by ANY operations: the queue is and stays
+   released, nothing is delivered or woken, and the writer never holds a full chunk. *)
+Theorem c11_disconnect_history : forall s ops, Gen s -> c_reader s = true ->
+  let '(s1, _, _) := cstep s ODropReader in
+  let '(sf, rs) := crun s1 ops in
+  c_st sf = SFused /\ pending sf = [] /\ lenN (c_buf sf) < c_cap s /\
+  Forall (fun p => delivered_of (fst p) = [] /\ snd p = []) rs.
+Proof. exact disconnect_history. Qed.
+
+(* After the first failed write or flush everything fails: the failure leaves a writer that is not
+   Raw, and such a writer refuses every operation of every continuation. *)
+Theorem c11_failure_is_final : forall s o, NonOk s -> CInv s ->
+  let '(s', r, wk) := cstep s o in
+  (match o, r with OWrite _, RWrite None => True | OFlush, RIo false => True | _, _ => False end) ->
+  c_w s' <> WRaw /\
+  forall ops, let '(sf, rs) := crun s' ops in Forall2 (fun o p => refused o (fst p)) ops rs.
+Proof. exact failure_is_final. Qed.
+
 (* the pinned tree: the body drop changed nothing, so 3 x (write a chunk, flush) all succeeded *)
 Example c11_legacy_refuted :
   let run := fold_left (fun s o => fst (fst (cstep_legacy s o))) [ODropReader] (cinit 2) in
@@ -55,3 +84,6 @@ Print Assumptions c11_dead_writer_refuses.
 Print Assumptions c11_disconnect.
 Print Assumptions c11_flush_after_disconnect.
 Print Assumptions c11_write_after_disconnect.
+Print Assumptions c11_abort_history.
+Print Assumptions c11_disconnect_history.
+Print Assumptions c11_failure_is_final.
